@@ -11,13 +11,13 @@ def Running (s : St) : Prop :=
 
 /-- frames of a HEAD response at any time -/
 def HeadSh (s : St) : Prop :=
-  (s.sentHeader = false ∧ s.out = []) ∨ (s.sentHeader = true ∧ ∃ F, s.out = [Frame.headers F true])
+  (s.sentHeader = false ∧ s.out = []) ∨ (s.sentHeader = true ∧ ∃ F, F ≠ [] ∧ s.out = [Frame.headers F true])
 
 /-- frames of a finished response -/
 def Final (o : List Frame) : Prop :=
-  (∃ F, o = [Frame.headers F true]) ∨
+  (∃ F, F ≠ [] ∧ o = [Frame.headers F true]) ∨
   (∃ F ds last, o = Frame.headers F false :: (ds ++ [last]) ∧ (∀ d ∈ ds, isDataNoEnd d) ∧
-     ((∃ p, last = Frame.data p true) ∨ (∃ T, last = Frame.headers T true)))
+     ((∃ p, last = Frame.data p true) ∨ (∃ T, T ≠ [] ∧ last = Frame.headers T true)))
 
 /-! ### pieces of writeChunk -/
 theorem writeHeader_sent (s : St) (c : Nat) :
@@ -39,16 +39,20 @@ theorem headerPart_unsent (env : Env) (s : St) (p : List Nat) (h : s.sentHeader 
     ∃ F, (headerPart env s p).1.out = s.out ++ [Frame.headers F (headerPart env s p).2] ∧
       (headerPart env s p).1.sentHeader = true ∧
       (headerPart env s p).2 =
-        ((s.handlerDone && (headerPart env s p).1.trailers.isEmpty && p.isEmpty) || s.isHead) := by
+        ((s.handlerDone && (headerPart env s p).1.trailers.isEmpty && p.isEmpty) || s.isHead) ∧ F ≠ [] ∧
+      ∃ s2 c, F = headerFields env s2 c p ∧ s2.snap = (clenPart { s with sentHeader := true }).1.snap ∧
+        s2.status = (clenPart { s with sentHeader := true }).1.status := by
   obtain ⟨_, _, c3, c4, _, _, _, c8⟩ := clenPart_props { s with sentHeader := true }
   have c9 := clenPart_sent { s with sentHeader := true }
   simp only [] at c3 c4 c8 c9
   unfold headerPart
   simp only [h, Bool.not_false, if_true]
-  refine ⟨?F, ?h1, ?h2, ?h3⟩
+  refine ⟨?F, ?h1, ?h2, ?h3, ?h0, ?h4⟩
   case h1 => rw [c3]
   case h2 => exact c9
   case h3 => rw [c8, c4]
+  case h0 => unfold headerFields; simp
+  case h4 => exact ⟨_, _, rfl, rfl, rfl⟩
 
 theorem promoteStep_sent (st : St) (e : Str × List Str) : (promoteStep st e).sentHeader = st.sentHeader := by
   unfold promoteStep; split <;> rfl
@@ -166,7 +170,7 @@ theorem wc_running (env : Env) (s : St) (p : List Nat) (hh : s.isHead = false) (
   obtain ⟨kh, _, _⟩ := headerPart_props env s1 p
   rcases hr1 with ⟨hs, ho⟩ | ⟨hs, F, ds, ho, hds⟩
   · -- header not yet sent
-    obtain ⟨F, e1, e2, e3⟩ := headerPart_unsent env s1 p hs
+    obtain ⟨F, e1, e2, e3, e0, _⟩ := headerPart_unsent env s1 p hs
     have hes : (headerPart env s1 p).2 = false := by rw [e3, hd1, hh1]; rfl
     rw [hes] at e1
     rw [if_neg (by simp [hes]), if_neg (by rw [kh.isHead, hh1]; simp)]
@@ -194,13 +198,14 @@ theorem wc_running (env : Env) (s : St) (p : List Nat) (hh : s.isHead = false) (
 /-- the tail written by bodyPart once the handler is done ends the stream -/
 theorem final_tail (s1 : St) (p : List Nat) (hd : s1.handlerDone = true) (ht : TrOK s1.trailers) :
     ∃ ds last, dataPart p (s1.handlerDone && !hasNonempty s1) ++ trailerPart s1 = ds ++ [last] ∧
-      (∀ d ∈ ds, isDataNoEnd d) ∧ ((∃ q, last = Frame.data q true) ∨ (∃ T, last = Frame.headers T true)) := by
+      (∀ d ∈ ds, isDataNoEnd d) ∧ ((∃ q, last = Frame.data q true) ∨ (∃ T, T ≠ [] ∧ last = Frame.headers T true)) := by
   cases hn : hasNonempty s1 with
   | true =>
     have hne := encode_nonempty s1 ht hn
     refine ⟨dataPart p false, Frame.headers (encodeHeaders s1.hh s1.trailers) true, ?_,
-      mem_append_data (ds := []) (fun _ h => by cases h), Or.inr ⟨_, rfl⟩⟩
-    simp [trailerPart, hd, hn, hne]
+      mem_append_data (ds := []) (fun _ h => by cases h), Or.inr ⟨_, ?_, rfl⟩⟩
+    · simp [trailerPart, hd, hn, hne]
+    · intro h0; rw [h0] at hne; simp at hne
   | false =>
     refine ⟨[], Frame.data p true, ?_, (fun _ h => by cases h), Or.inl ⟨p, rfl⟩⟩
     simp [trailerPart, dataPart, hd, hn]
@@ -219,12 +224,12 @@ theorem wc_final (env : Env) (s : St) (p : List Nat) (hh : s.isHead = false) (hd
   rw [if_neg (by simp [hh1])]
   obtain ⟨kh, _, _⟩ := headerPart_props env s1 p
   rcases hr1 with ⟨hs, ho⟩ | ⟨hs, F, ds, ho, hds⟩
-  · obtain ⟨F, e1, e2, e3⟩ := headerPart_unsent env s1 p hs
+  · obtain ⟨F, e1, e2, e3, e0, _⟩ := headerPart_unsent env s1 p hs
     cases hes : (headerPart env s1 p).2 with
     | true =>
       rw [if_pos rfl]
       rw [hes] at e1
-      exact Or.inl ⟨F, by rw [e1, ho]; rfl⟩
+      exact Or.inl ⟨F, e0, by rw [e1, ho]; rfl⟩
     | false =>
       rw [hes] at e1
       rw [if_neg (by simp), if_neg (by rw [kh.isHead, hh1]; simp), if_neg (by rw [kh.done, hd1]; simp)]
@@ -259,11 +264,11 @@ theorem wc_head (env : Env) (s : St) (p : List Nat) (hh : s.isHead = true) (hr :
   have hr1 : HeadSh s1 := by unfold HeadSh; rw [a1, a2]; exact hr
   rcases hr1 with ⟨hs, ho⟩ | ⟨hs, F, ho⟩
   · rw [if_neg (by simp [hs])]
-    obtain ⟨F, e1, e2, e3⟩ := headerPart_unsent env s1 p hs
+    obtain ⟨F, e1, e2, e3, e0, _⟩ := headerPart_unsent env s1 p hs
     have hes : (headerPart env s1 p).2 = true := by rw [e3, hh1]; simp
     rw [if_pos hes]
     rw [hes] at e1
-    exact ⟨Or.inr ⟨e2, F, by rw [e1, ho]; rfl⟩, e2⟩
+    exact ⟨Or.inr ⟨e2, F, e0, by rw [e1, ho]; rfl⟩, e2⟩
   · rw [if_pos (by simp [hh1, hs])]
     exact ⟨Or.inr ⟨hs, F, ho⟩, hs⟩
 
@@ -359,12 +364,147 @@ theorem final_run (env : Env) (isHead : Bool) (acts : List Act) : Final (runHand
     have key : ∀ (s' : St) (p : List Nat), s'.isHead = true → HeadSh s' → Final (writeChunk env s' p).out := by
       intro s' p h1 h2
       obtain ⟨w1, w2⟩ := wc_head env s' p h1 h2
-      rcases w1 with ⟨w, _⟩ | ⟨_, F, ho⟩
+      rcases w1 with ⟨w, _⟩ | ⟨_, F, hF, ho⟩
       · rw [w2] at w; cases w
-      · exact Or.inl ⟨F, ho⟩
+      · exact Or.inl ⟨F, hF, ho⟩
     unfold rwFlush
     split
     · exact key _ _ hl.isHead hr
     · exact key _ _ hl.isHead hr
+
+/-! ### HEADERS / CONTINUATION splitting -/
+theorem splitAux_zero (fuel : Nat) (first es : Bool) : splitAux fuel 0 first es = [] := by
+  cases fuel <;> simp [splitAux]
+
+theorem splitAux_tail (fuel rem : Nat) (es : Bool) :
+    ∀ w ∈ splitAux fuel rem false es, w.cont = true ∧ w.es = false := by
+  induction fuel generalizing rem with
+  | zero => intro w hw; simp [splitAux] at hw
+  | succ n ih =>
+    intro w hw
+    simp only [splitAux] at hw
+    split at hw
+    · cases hw
+    · rcases List.mem_cons.mp hw with h | h
+      · rw [h]; simp
+      · exact ih _ w h
+
+theorem splitAux_noes (fuel rem : Nat) (first : Bool) :
+    ∀ w ∈ splitAux fuel rem first false, w.es = false := by
+  induction fuel generalizing rem first with
+  | zero => intro w hw; simp [splitAux] at hw
+  | succ n ih =>
+    intro w hw
+    simp only [splitAux] at hw
+    split at hw
+    · cases hw
+    · rcases List.mem_cons.mp hw with h | h
+      · rw [h]; simp
+      · exact ih _ _ w h
+
+theorem splitAux_len (fuel rem : Nat) (first es : Bool) :
+    ∀ w ∈ splitAux fuel rem first es, 0 < w.len ∧ w.len ≤ maxFrag := by
+  induction fuel generalizing rem first with
+  | zero => intro w hw; simp [splitAux] at hw
+  | succ n ih =>
+    intro w hw
+    simp only [splitAux] at hw
+    split at hw
+    · cases hw
+    · rename_i hr
+      rcases List.mem_cons.mp hw with h | h
+      · rw [h]; simp only []; unfold maxFrag; omega
+      · exact ih _ _ w h
+
+theorem splitAux_sum (fuel rem : Nat) (first es : Bool) (h : rem ≤ fuel) :
+    ((splitAux fuel rem first es).map (·.len)).sum = rem := by
+  induction fuel generalizing rem first with
+  | zero => have : rem = 0 := by omega
+            simp [splitAux, this]
+  | succ n ih =>
+    simp only [splitAux]
+    split
+    · rename_i h0; simp [h0]
+    · rename_i h0
+      simp only [List.map_cons, List.sum_cons]
+      have hm : min rem maxFrag ≥ 1 := by unfold maxFrag; omega
+      rw [ih (rem - min rem maxFrag) false (by omega)]
+      have : min rem maxFrag ≤ rem := Nat.min_le_left _ _
+      omega
+
+/-- END_HEADERS exactly on the last frame -/
+def ehOk : List Wire → Bool
+  | [] => true
+  | [w] => w.eh
+  | w :: r => !w.eh && ehOk r
+
+theorem ehOk_cons (w : Wire) (t : List Wire) (ht : t ≠ []) : ehOk (w :: t) = (!w.eh && ehOk t) := by
+  cases t with
+  | nil => exact absurd rfl ht
+  | cons a r => rfl
+
+theorem splitAux_ne_nil (fuel rem : Nat) (first es : Bool) (h0 : rem ≠ 0) (h : rem ≤ fuel) :
+    splitAux fuel rem first es ≠ [] := by
+  cases fuel with
+  | zero => omega
+  | succ n => simp [splitAux, h0]
+
+theorem splitAux_eh (fuel rem : Nat) (first es : Bool) (h : rem ≤ fuel) :
+    ehOk (splitAux fuel rem first es) = true := by
+  induction fuel generalizing rem first with
+  | zero => simp [splitAux, ehOk]
+  | succ n ih =>
+    simp only [splitAux]
+    split
+    · simp [ehOk]
+    · rename_i h0
+      have hm : min rem maxFrag ≥ 1 := by unfold maxFrag; omega
+      have hle : min rem maxFrag ≤ rem := Nat.min_le_left _ _
+      by_cases hz : rem - min rem maxFrag = 0
+      · rw [hz, splitAux_zero]; simp [ehOk]
+      · have hr : rem - min rem maxFrag ≤ n := by omega
+        rw [ehOk_cons _ _ (splitAux_ne_nil n _ false es hz hr), ih _ false hr]
+        have : (rem - min rem maxFrag == 0) = false := by simpa using hz
+        simp [this]
+
+theorem wireOf_append (encLen : List (Str × Str) → Nat) (a b : List Frame) :
+    wireOf encLen (a ++ b) = wireOf encLen a ++ wireOf encLen b := by
+  induction a with
+  | nil => rfl
+  | cons x r ih => cases x <;> simp [wireOf, ih]
+
+theorem wireOf_noes (encLen : List (Str × Str) → Nat) (fs : List Frame) (h : ∀ f ∈ fs, f.es = false) :
+    ∀ w ∈ wireOf encLen fs, w.es = false := by
+  induction fs with
+  | nil => intro w hw; cases hw
+  | cons x r ih =>
+    intro w hw
+    have hx := h x (by simp)
+    have hr : ∀ f ∈ r, f.es = false := fun f hf => h f (List.mem_cons_of_mem _ hf)
+    cases x with
+    | headers F e =>
+      simp only [Frame.es] at hx
+      simp only [wireOf, List.mem_append] at hw
+      rcases hw with hw | hw
+      · rw [hx] at hw; exact splitAux_noes _ _ _ w hw
+      · exact ih hr w hw
+    | data p e =>
+      simp only [Frame.es] at hx
+      simp only [wireOf] at hw
+      rcases List.mem_cons.mp hw with hw | hw
+      · rw [hw]; exact hx
+      · exact ih hr w hw
+
+/-- the block of a non-empty field list: a HEADERS frame with the block's END_STREAM flag, then CONTINUATIONs -/
+theorem splitBlock_cons (L : Nat) (es : Bool) (hL : 0 < L) :
+    ∃ w rest, splitBlock L es = w :: rest ∧ w.cont = false ∧ w.es = es ∧
+      ∀ c ∈ rest, c.cont = true ∧ c.es = false := by
+  unfold splitBlock
+  cases L with
+  | zero => omega
+  | succ n =>
+    simp only [splitAux]
+    rw [if_neg (by omega)]
+    exact ⟨_, _, rfl, by simp, by simp, splitAux_tail _ _ _⟩
 
 end BfeVerif.C38
